@@ -340,3 +340,204 @@ Section Bound.
       rewrite Hcalls in Hh. unfold pairs in Hh. rewrite map_length in Hh. fold L in Hh. lia.
   Qed.
 End Bound.
+
+(* ---------- the deliveries stay in front of the fault site ---------- *)
+Lemma skipn_add : forall A (l : list A) a b, skipn b (skipn a l) = skipn (a + b) l.
+Proof.
+  intros A l a. revert l. induction a as [|a IH]; intros l b; simpl; [reflexivity|].
+  destruct l as [|x l]; [now rewrite !skipn_nil|]. apply IH.
+Qed.
+
+Section Limit.
+  Variable pre : blk -> N.
+  Variable C : cfg.
+  Hypothesis Hfix : fixed C.
+  Let L := c_lay C.
+
+  Notation FP := (FP pre C).
+  Notation FPfrom := (FPfrom pre C).
+  Notation EPn := (EPn pre C).
+
+  Definition FPupto (i k : nat) : list pblk := map (pr pre) (filter (keep L i) (firstn k (file_of L i))).
+
+  Lemma FP_split : forall i k, FP i = FPupto i k ++ FPfrom i k.
+  Proof.
+    intros i k. unfold PipelineDefs.FP, PipelineDefs.FPfrom, FPupto. fold L. simpl.
+    rewrite <- map_app, <- filter_app, firstn_skipn. reflexivity.
+  Qed.
+
+  Lemma FPfrom_split : forall i a b, a <= b -> exists mid, FPfrom i a = mid ++ FPfrom i b.
+  Proof.
+    intros i a b H. unfold PipelineDefs.FPfrom. fold L.
+    replace b with (a + (b - a)) by lia. rewrite <- skipn_add.
+    exists (map (pr pre) (filter (keep L i) (firstn (b - a) (skipn a (file_of L i))))).
+    rewrite <- map_app, <- filter_app, firstn_skipn. reflexivity.
+  Qed.
+
+  Lemma before_pairs : forall i k, pairs pre (before_site L i k) = EPn i ++ FPupto i k.
+  Proof.
+    intros i k. unfold before_site, pairs. rewrite map_app. f_equal.
+    unfold PipelineDefs.EPn. induction (seq 0 i) as [|j l IH]; simpl; [reflexivity|].
+    rewrite map_app, IH. now rewrite FP_kept.
+  Qed.
+
+  (* the position of a fault in the files, when it has one that the run certainly meets *)
+  Definition site_pos : option (nat * nat) :=
+    match c_fault C with
+    | FExists i | FOpen i | FHeader i => Some (i, 0)
+    | FRead i k => if Nat.leb k (len C i) then Some (i, k) else None
+    | _ => None
+    end.
+
+  Record CInv (s : state) : Prop := {
+    c_out : forall i k, site_pos = Some (i, k) -> prefix (f_out (s_file s i)) (FPupto i k);
+    c_mcall : forall i k i' v, site_pos = Some (i, k) -> s_m s = MCall i' v -> i' <= i;
+    c_limit : forall i k, site_pos = Some (i, k) -> prefix (s_calls s) (EPn i ++ FPupto i k);
+    c_hlimit : forall n, c_fault C = FHandler n -> length (s_calls s) <= S n
+  }.
+
+  Lemma CInv_init : CInv (init C).
+  Proof. constructor; simpl; intros; try apply prefix_nil; try discriminate; lia. Qed.
+
+  (* the drain goroutine of the faulty file can only have ended because the source was shut down *)
+  Lemma site_ddone : forall s i k, Inv pre C s -> BInv C s -> site_pos = Some (i, k) ->
+    f_d (s_file s i) = DDone -> term s = true.
+  Proof.
+    intros s i k I B Hs Hd. unfold site_pos in Hs. pose proof (inv_f _ _ _ I i) as F.
+    destruct (c_fault C) as [|j|j|j|j k'|j k'|n] eqn:Hf; try discriminate.
+    - inversion Hs; subst. destruct (b_exists _ _ B i Hf) as [Hle _].
+      assert (Hr : f_r (s_file s i) = RIdle) by (apply (fi_idle _ _ _ _ _ _ _ F); lia).
+      assert (Hdi : f_d (s_file s i) = DIdle) by (apply (fi_open _ _ _ _ _ _ _ F); auto). congruence.
+    - inversion Hs; subst. pose proof (b_open _ _ B i (or_introl Hf)). congruence.
+    - inversion Hs; subst. pose proof (b_open _ _ B i (or_intror Hf)). congruence.
+    - destruct (Nat.leb k' (len C j)) eqn:El; [|discriminate]. inversion Hs; subst.
+      apply Nat.leb_le in El. destruct (b_read _ _ B i k Hf El) as (_ & Hq & _).
+      destruct (b_ddone _ _ B i Hd); congruence.
+  Qed.
+
+  Lemma step_cpres : forall s tc, Inv pre C s -> BInv C s -> CInv s -> CInv (step pre C s tc).
+  Proof.
+    intros s [t c] I B Cv.
+    (* steps that neither hand a block to run() nor move run() *)
+    assert (Hframe : forall s', (forall j, f_out (s_file s' j) = f_out (s_file s j)) ->
+              s_m s' = s_m s -> s_calls s' = s_calls s -> CInv s').
+    { intros s' Ho Em Ec. destruct Cv. constructor; rewrite ?Em, ?Ec; auto.
+      intros i k Hs. rewrite Ho. auto. }
+    destruct t as [|i|i|i k| |]; simpl.
+    - (* launch reader *)
+      apply Hframe; unfold step_L, l_exit;
+        repeat match goal with |- context[match ?x with _ => _ end] => destruct x end;
+        simpl; autorewrite with pl; auto; intros j; simpl;
+        try (destruct (Nat.eqb_spec j i)); subst; reflexivity.
+    - (* file reader *)
+      apply Hframe; unfold step_R; cbv zeta;
+        repeat match goal with |- context[match ?x with _ => _ end] => destruct x end;
+        simpl; autorewrite with pl; auto; intros j; simpl; autorewrite with pl;
+        try (destruct (Nat.eqb_spec j i)); subst; reflexivity.
+    - (* drain goroutine *)
+      pose proof (inv_f _ _ _ I i) as F.
+      unfold step_D. cbv zeta. destruct (f_d (s_file s i)) as [| |k|v|] eqn:Hd; auto.
+      + apply Hframe; repeat match goal with |- context[match ?x with _ => _ end] => destruct x end;
+          simpl; auto; intros j; simpl; try (destruct (Nat.eqb_spec j i)); subst; reflexivity.
+      + apply Hframe; repeat match goal with |- context[match ?x with _ => _ end] => destruct x end;
+          simpl; auto; intros j; simpl; try (destruct (Nat.eqb_spec j i)); subst; reflexivity.
+      + destruct (term s && (c || negb (m_waits_on i s))).
+        { apply Hframe; simpl; auto; intros j; simpl; destruct (Nat.eqb_spec j i); subst; reflexivity. }
+        destruct (m_waits_on i s) eqn:Ew; [|exact Cv].
+        unfold m_waits_on in Ew. destruct (s_m s) eqn:Hm; try discriminate.
+        destruct Cv. constructor; simpl; auto; try discriminate.
+        intros i1 k1 Hs. destruct (Nat.eqb_spec i1 i) as [->|]; [|auto]. simpl.
+        (* a block of the faulty file is handed over: it lies in front of the site *)
+        pose proof (fi_pf _ _ _ _ _ _ _ F) as Hpf. rewrite Hd in Hpf. unfold hand_d in Hpf. rewrite Hd in Hpf.
+        specialize (Hpf ltac:(discriminate)).
+        assert (Hrk : f_rk (s_file s i) <= k1).
+        { unfold site_pos in Hs. destruct (c_fault C) as [|j|j|j|j k'|j k'|n] eqn:Hf; try discriminate.
+          - inversion Hs; subst. destruct (b_exists _ _ B i Hf) as [Hle _].
+            assert (Hr : f_r (s_file s i) = RIdle) by (apply (fi_idle _ _ _ _ _ _ _ F); lia).
+            assert (Hdi : f_d (s_file s i) = DIdle) by (apply (fi_open _ _ _ _ _ _ _ F); auto). congruence.
+          - inversion Hs; subst. pose proof (b_open _ _ B i (or_introl Hf)). congruence.
+          - inversion Hs; subst. pose proof (b_open _ _ B i (or_intror Hf)). congruence.
+          - destruct (Nat.leb k' (len C j)) eqn:El; [|discriminate]. inversion Hs; subst.
+            apply Nat.leb_le in El. destruct (b_read _ _ B i k1 Hf El) as (Hle & _). exact Hle. }
+        destruct (FPfrom_split i _ _ Hrk) as [mid Hmid].
+        rewrite (FP_split i k1), Hmid in Hpf. rewrite !app_assoc in Hpf. apply app_inv_tail in Hpf.
+        exists (map (pv pre C i) (f_q (s_file s i)) ++ mid). rewrite <- Hpf. now rewrite <- !app_assoc.
+    - (* preprocess goroutine *)
+      apply Hframe; unfold step_P; cbv zeta;
+        repeat match goal with |- context[match ?x with _ => _ end] => destruct x end;
+        simpl; autorewrite with pl; auto; intros j; simpl; autorewrite with pl;
+        try (destruct (Nat.eqb_spec j i)); subst; reflexivity.
+    - (* run() *)
+      assert (Hm_other : forall s', (forall j, f_out (s_file s' j) = f_out (s_file s j)) ->
+                s_calls s' = s_calls s -> (forall i' v, s_m s' <> MCall i' v) -> CInv s').
+      { intros s' Ho Ec Hn. destruct Cv. constructor; rewrite ?Ec; auto.
+        - intros i k Hs. rewrite Ho. auto.
+        - intros i k i' v _ Hm. exfalso. exact (Hn _ _ Hm). }
+      unfold step_M. destruct (s_m s) as [|i|i v|i v|e|e] eqn:Hm; try exact Cv.
+      + destruct (s_fs s) as [|[i|] r].
+        * destruct (term s || s_fsclosed s); [|exact Cv]. apply Hm_other; simpl; auto; discriminate.
+        * destruct (term s && c); apply Hm_other; simpl; auto; discriminate.
+        * destruct (term s && c); apply Hm_other; simpl; auto; discriminate.
+      + destruct (c_fix1 C && term s && (c || negb (f_bclosed (s_file s i)))); [apply Hm_other; simpl; auto; discriminate|].
+        destruct (f_bclosed (s_file s i)); [apply Hm_other; simpl; auto; discriminate|exact Cv].
+      + destruct (term s) eqn:Ht; [apply Hm_other; simpl; auto; discriminate|].
+        destruct Cv. constructor; simpl; auto.
+        intros i0 k0 i' v' Hs Hc. inversion Hc; subst i' v'.
+        destruct (le_lt_dec i i0) as [|Hlt]; [assumption|exfalso].
+        assert (Hb : f_bclosed (s_file s i0) = true).
+        { apply (gi_left _ _ _ (inv_g _ _ _ I)). unfold left. now rewrite Hm. }
+        apply (fi_bclosed _ _ _ _ _ _ _ (inv_f _ _ _ I i0)) in Hb.
+        pose proof (site_ddone s i0 k0 I B Hs Hb). congruence.
+      + destruct (negb (s_last s =? 0)%N && negb (b_par (fst v) =? s_last s)%N); [apply Hm_other; simpl; auto; discriminate|].
+        assert (Hlim : forall i0 k0, site_pos = Some (i0, k0) -> prefix (s_calls s ++ [v]) (EPn i0 ++ FPupto i0 k0)).
+        { intros i0 k0 Hs. destruct I as [Il If Ig].
+          pose proof (gi_g1 _ _ _ Ig) as Hg. rewrite Hm in Hg. unfold hand_m in Hg. rewrite Hm in Hg.
+          pose proof (gi_m _ _ _ Ig) as Htk. rewrite Hm in Htk.
+          rewrite Hg, Htk, flat_map_seq_S.
+          rewrite (flat_map_ext_seq _ (outs s) FP i) by (intros; eapply (gi_mc _ _ _ Ig); eauto).
+          fold (EPn i).
+          pose proof (c_mcall _ Cv i0 k0 i v Hs Hm) as Hle.
+          destruct (Nat.eq_dec i i0) as [->|Hne].
+          - destruct (c_out _ Cv i0 k0 Hs) as [r Hr]. unfold outs. rewrite Hr. exists r. now rewrite app_assoc.
+          - destruct (fi_pfx _ _ _ _ _ _ _ (If i)) as [r Hr].
+            eapply prefix_trans; [|eapply prefix_trans; [apply (EPn_prefix pre C (S i) i0); lia|apply prefix_app_r]].
+            rewrite EPn_S. unfold outs. rewrite Hr. exists r. now rewrite app_assoc. }
+        assert (Hhl : forall n, c_fault C = FHandler n -> length (s_calls s ++ [v]) <= S n).
+        { intros n Hn. pose proof (b_handler _ _ B n Hn) as Hh. rewrite Hm in Hh. rewrite app_length. simpl. lia. }
+        destruct (is_FHandler C (length (s_calls s))).
+        * destruct Cv. constructor; simpl; auto. intros; discriminate.
+        * destruct Cv. constructor; simpl; auto. intros; discriminate.
+      + apply Hm_other; simpl; autorewrite with pl; auto; discriminate.
+    - apply Hframe; unfold step_X; destruct (s_x s); simpl; autorewrite with pl; auto.
+  Qed.
+End Limit.
+
+Lemma run_cpres : forall pre C, fixed C -> forall sched s,
+  Inv pre C s -> BInv C s -> CInv pre C s -> CInv pre C (run pre C sched s).
+Proof.
+  intros pre C Hfix. induction sched as [|tc sched IH]; intros s I B Cv; simpl; [exact Cv|].
+  apply IH; [now apply step_pres|now apply step_bpres|now apply step_cpres].
+Qed.
+
+Lemma bound_core : forall pre C sched, fixed C ->
+  let s := run pre C sched (init C) in
+  (forall l, site_limit_blocks C = Some l -> prefix (s_calls s) (pairs pre l)) /\
+  (forall n, c_fault C = FHandler n -> length (s_calls s) <= S n).
+Proof.
+  intros pre C sched Hfix s.
+  assert (Cv : CInv pre C s).
+  { apply run_cpres; auto; [apply Inv_init|apply (BInv_init pre)|apply CInv_init]. }
+  split.
+  - intros l Hl. unfold site_limit_blocks in Hl.
+    assert (Hpos : forall i k, site_pos C = Some (i, k) -> l = before_site (c_lay C) i k ->
+              prefix (s_calls s) (pairs pre l)).
+    { intros i k Hs ->. rewrite before_pairs. apply (c_limit _ _ _ Cv i k Hs). }
+    unfold site_pos in Hpos. unfold len in Hpos.
+    destruct (c_fault C) as [|i|i|i|i k|i k|n]; try discriminate.
+    + inversion Hl; subst. apply (Hpos i 0); reflexivity.
+    + inversion Hl; subst. apply (Hpos i 0); reflexivity.
+    + inversion Hl; subst. apply (Hpos i 0); reflexivity.
+    + destruct (Nat.leb k (length (file_of (c_lay C) i))); [|discriminate].
+      inversion Hl; subst. apply (Hpos i k); reflexivity.
+  - intros n Hn. apply (c_hlimit _ _ _ Cv n Hn).
+Qed.
